@@ -87,7 +87,10 @@ pub fn roundtrip(run: &mut Run, c: &IceCandidate) {
     // the assumption about std used by the theorem (AddrOk): holds for scope-id-free addresses
     for a in std::iter::once(&c.address).chain(c.related_address.iter()) {
         let txt = if a.is_ipv6() { format!("[{}]:{}", a.ip(), a.port()) } else { format!("{}:{}", a.ip(), a.port()) };
-        if txt.parse::<SocketAddr>().ok() != Some(*a) { run.count("std_addr_text_assumption_violated"); return; }
+        if txt.parse::<SocketAddr>().ok() != Some(*a) {
+            // std's print/parse does not round-trip this address (e.g. an IPv6 scope id): the theorem's hypothesis
+            // `AddrOk` fails, and so does the round trip of the candidate line — reported, not skipped
+            run.fail(&format!("codec:candidate-line:address-text-does-not-round-trip:{class}"), &case, &txt); return; }
     }
     match do_fromsdp(run, &line, "roundtrip") {
         None => run.fail(&format!("codec:candidate-line:rejected:{class}"), &case, &line),
@@ -200,7 +203,34 @@ pub fn mutate_line(rng: &mut Rng, line: &str) -> String {
     out
 }
 
+/// every public / hooked constructor stores the priority of ITS type, transport flavour and component
+fn constructor_priorities(run: &mut Run, rng: &mut Rng) {
+    let a: SocketAddr = "192.0.2.7:5000".parse().unwrap();
+    let b: SocketAddr = "10.0.0.7:5000".parse().unwrap();
+    let f = |tp: u64, lp: u64, comp: u16| (tp << 24) + (lp << 8) + (256 - comp.min(256) as u64);
+    let _ = rng;
+    for comp in [1u16, 2, 3, 255, 256] {
+        let mut cases: Vec<(String, IceCandidate, u64)> = vec![
+            ("host".into(), IceCandidate::host(a, comp), f(126, 65535, comp)),
+            ("srflx".into(), hook::server_reflexive(b, a, comp), f(100, 65535, comp)),
+            ("relay-udp".into(), hook::relay(a, comp, "udp"), f(0, 65535, comp)),
+            ("relay-tcp".into(), hook::relay(a, comp, "tcp"), f(0, 65535, comp)),
+        ];
+        for (tt, name, lp) in [(TcpType::Passive, "passive", 65535u64), (TcpType::Active, "active", 65534), (TcpType::So, "so", 65533)] {
+            cases.push((format!("host_tcp-{name}"), IceCandidate::host_tcp(a, comp, tt), f(126, lp, comp)));
+            cases.push((format!("tcp-{name}"), IceCandidate::tcp(a, comp, name), f(126, lp, comp)));
+            cases.push((format!("srflx-with_tcp_type-{name}"), hook::server_reflexive(b, a, comp).with_tcp_type(tt), f(100, 65535, comp)));
+        }
+        cases.push(("tcp-unknown-type-defaults-to-passive".into(), IceCandidate::tcp(a, comp, "bogus"), f(126, 65535, comp)));
+        for (name, c, want) in cases {
+            run.case("candprio", &format!("{name} {comp}"), &c.priority.to_string(), true);
+            if c.priority as u64 != want { run.fail(&format!("codec:priority:constructor:{name}"), &format!("candprio {name} {comp}"), &format!("{} vs {want}", c.priority)); }
+        }
+    }
+}
+
 pub fn run_all(run: &mut Run, rng: &mut Rng, thorough: bool) {
+    constructor_priorities(run, rng);
     // exhaustive tuple scope: type x transport flavour x component x family x related
     let pool = addr_pool(rng);
     let v4 = pool[0]; let v6 = pool[12];
